@@ -210,12 +210,19 @@ def nlp_diff(p):
         else:
             used[hit] = True
     extra_rows = [dict(kind=k, g_index=int(i), residuals=w.tolist()) for (k, i, w), u in zip(em_rows, used) if not u]
-    # grid-coupling rows are judged by the engine (semantic equivalence); natively only report them
+    # grid-coupling rows (rows over the stage's own time symbols only) are judged by the engine (semantic equivalence with
+    # the declared partition); natively an unmatched row counts only when it involves anything else
+    if extra_rows:
+        both = ca.vertcat(x, par)
+        tv = [ca.vec(ca.MX(e)) for lst in (getattr(meth, "T_local", []), getattr(meth, "t0_local", [])) for e in lst if e is not None] + [ca.vec(ca.MX(meth.T)), ca.vec(ca.MX(meth.t0))]
+        tcols = set(np.nonzero(np.array(ca.DM(ca.jacobian(ca.vcat(tv), both).sparsity(), 1)).sum(axis=0))[0])
+        Jg = np.array(ca.DM(ca.jacobian(opti.g, both).sparsity(), 1))
+        extra_rows = [r for r in extra_rows if not (set(np.nonzero(Jg[r["g_index"]])[0]) and set(np.nonzero(Jg[r["g_index"]])[0]) <= tcols)]
     if missing:
         problems.append(dict(what="rows expected by the declaration but absent from the NLP", rows=missing[:6], count=len(missing)))
     parts = p.get("parts") or []
     if extra_rows and "frame" in parts and not missing:
-        problems.append(dict(what="NLP rows that no declaration accounts for (may be grid-coupling rows)", rows=extra_rows[:6], count=len(extra_rows)))
+        problems.append(dict(what="NLP rows that no declaration accounts for (grid-coupling rows excluded)", rows=extra_rows[:6], count=len(extra_rows)))
     if problems:
         return dict(status="confirmed", failing_input=dict(instance=out["instance"], x=xs[0].tolist(), p=pv.tolist()),
                     problems=problems, n_emitted=n_em, n_expected=len(ex_rows), **out)
